@@ -17,43 +17,57 @@ Definition no_strings (_ : N) : bool := false.
 (* ---- D11: an escaped "}}" directly after a placeholder -------------------------------------- *)
 Definition d11_tpl : tpl := [Text #"braces "; EscL; Hole #"name" None; EscR; Text #" end"].
 
+(* the pinned scanner (skip = true) *)
 Lemma scan_adj_refuted :
   wf_tpl d11_tpl = true /\ ok_adj d11_tpl = false /\
   print d11_tpl = #"braces {{{name}}} end" /\
   (positional d11_tpl, holes d11_tpl) = (#"braces {{{}}} end", [(#"name", [])]) /\
-  scan (print d11_tpl) = (#"braces {{{} end", [(#"name}}", [])]) /\
-  scan (print d11_tpl) <> (positional d11_tpl, holes d11_tpl) /\
-  snd (process N dec_oracle no_strings [] (print d11_tpl) [7%N])
+  scan true (print d11_tpl) = (#"braces {{{} end", [(#"name}}", [])]) /\
+  scan true (print d11_tpl) <> (positional d11_tpl, holes d11_tpl) /\
+  snd (process N dec_oracle no_strings true [] (print d11_tpl) [7%N])
   = {| r_text := Some #"braces {7 end"; r_named := Some [(#"name}}", #"7")] |} /\
   render N dec_oracle d11_tpl [7%N] = Some #"braces {7} end".
 Proof. repeat split; try (vm_compute; reflexivity). vm_compute. discriminate. Qed.
+
+(* the same input through the repaired scanner (skip = false) *)
+Example d11_repaired :
+  scan false (print d11_tpl) = (positional d11_tpl, holes d11_tpl) /\
+  snd (process N dec_oracle no_strings false [] (print d11_tpl) [7%N])
+  = {| r_text := Some #"braces {7} end"; r_named := Some [(#"name", #"7")] |}.
+Proof. split; vm_compute; reflexivity. Qed.
 
 (* ---- D12: a value holding the separator ------------------------------------------------------ *)
 Definition d12_tpl : tpl := [Text #"a "; Hole #"x" None; Text #" b "; Hole #"y" None; Text #" c "; Hole #"z" None].
 Definition d12_values : list str := [ #"1"; [115; 1; 2; 3; 116]%N; #"2.5" ].        (* "s\1\2\3t" *)
 Definition d12_oracle (_ : str) (a : N) : option str := nth_error d12_values (N.to_nat a).
 
-Lemma sep_refuted :
+Lemma sep_refuted : forall skip : bool,
   wf_tpl d12_tpl = true /\ ok_adj d12_tpl = true /\ first_hole_named d12_tpl = true /\
   renders N d12_oracle (named_specs (holes d12_tpl) 3) [0; 1; 2]%N d12_values /\
   existsb has_sep d12_values = true /\
-  r_named (snd (process N d12_oracle no_strings [] (print d12_tpl) [0; 1; 2]%N))
+  r_named (snd (process N d12_oracle no_strings skip [] (print d12_tpl) [0; 1; 2]%N))
   = Some [(#"x", #"1"); (#"y", #"s"); (#"z", #"t")] /\
-  r_named (snd (process N d12_oracle no_strings [] (print d12_tpl) [0; 1; 2]%N))
+  r_named (snd (process N d12_oracle no_strings skip [] (print d12_tpl) [0; 1; 2]%N))
   <> Some (combine (named_keys (holes d12_tpl) 3) d12_values) /\
   (* the text is not affected *)
-  r_text (snd (process N d12_oracle no_strings [] (print d12_tpl) [0; 1; 2]%N))
+  r_text (snd (process N d12_oracle no_strings skip [] (print d12_tpl) [0; 1; 2]%N))
   = Some ([97; 32; 49; 32; 98; 32; 115; 1; 2; 3; 116; 32; 99; 32; 50; 46; 53]%N).
-Proof. repeat split; try (vm_compute; reflexivity). vm_compute. discriminate. Qed.
+Proof.
+  intros skip. do 3 (split; [vm_compute; reflexivity|]).
+  split; [split; vm_compute; reflexivity|]. split; [vm_compute; reflexivity|].
+  split; [destruct skip; vm_compute; reflexivity|].
+  split; [destruct skip; vm_compute; discriminate|destruct skip; vm_compute; reflexivity].
+Qed.
 
 (* ---- a newline inside a value: the JSON object spans two lines -------------------------------- *)
 Definition ex_hdr : hdr :=
   {| h_ts := #"1002"; h_file := #"na_case.cpp"; h_line := #"14"; h_tid := #"0"; h_logger := #"na"; h_level := #"INFO" |}.
 
+(* the pinned sink (esc = false) *)
 Lemma json_nl_refuted :
   hdr_ok no_nl ex_hdr = true /\
-  count_occ N.eq_dec (json_line ex_hdr #"nl {x}" (Some [(#"x", [97; 10; 98]%N)])) NL = 2 /\
-  ~ (exists body, json_line ex_hdr #"nl {x}" (Some [(#"x", [97; 10; 98]%N)]) = body ++ [NL] /\ no_nl body = true).
+  count_occ N.eq_dec (json_sink_line false ex_hdr #"nl {x}" (Some [(#"x", [97; 10; 98]%N)])) NL = 2 /\
+  ~ (exists body, json_sink_line false ex_hdr #"nl {x}" (Some [(#"x", [97; 10; 98]%N)]) = body ++ [NL] /\ no_nl body = true).
 Proof.
   split; [reflexivity|]. split; [vm_compute; reflexivity|].
   intros [body [E Hb]].
@@ -65,6 +79,15 @@ Proof.
     rewrite Z. reflexivity. }
   rewrite <- E in C. vm_compute in C. discriminate.
 Qed.
+
+(* the same input through the repaired sink (esc = true): one line, the value is "a\nb" (4 bytes) *)
+Example d16_repaired :
+  json_sink_line true ex_hdr #"nl {x}" (Some [(#"x", [97; 10; 98]%N)])
+  = #"{""timestamp"":""1002"",""file_name"":""na_case.cpp"",""line"":""14"",""thread_id"":""0"",""logger"":""na"",""log_level"":""INFO"",""message"":""nl {x}"",""x"":""a\nb""}" ++ [NL] /\
+  count_occ N.eq_dec (json_sink_line true ex_hdr #"nl {x}" (Some [(#"x", [97; 10; 98]%N)])) NL = 1 /\
+  json_parse_line (json_sink_line true ex_hdr #"nl {x}" (Some [(#"x", [97; 10; 98]%N)]))
+  = Some (members_of ex_hdr #"nl {x}" (Some [(#"x", [97; 10; 98]%N)])).
+Proof. repeat split; vm_compute; reflexivity. Qed.
 
 (* ---- _contains_named_args: the byte after a placeholder is skipped ---------------------------- *)
 Lemma contains_refuted :
@@ -81,9 +104,10 @@ Proof. repeat split; vm_compute; reflexivity. Qed.
    (replayed on the real code: the statement cannot be formatted); names with ':' are outside
    [wf_tpl] *)
 Lemma logj_colon_observation :
-  scan #"m {ns::v}" = (#"m {::v}", [(#"ns", #"::v")]) /\
-  scan #"m {flag ? a : b}" = (#"m {: b}", [(#"flag ? a ", #": b")]).
-Proof. split; vm_compute; reflexivity. Qed.
+  forall skip : bool,
+  scan skip #"m {ns::v}" = (#"m {::v}", [(#"ns", #"::v")]) /\
+  scan skip #"m {flag ? a : b}" = (#"m {: b}", [(#"flag ? a ", #": b")]).
+Proof. intros [|]; split; vm_compute; reflexivity. Qed.
 
 (* ---- non-vacuity ------------------------------------------------------------------------------ *)
 (* a template with every token kind in most adjacencies satisfies the hypotheses of scan_print,
@@ -95,41 +119,56 @@ Definition ex_tpl : tpl :=
 Example ex_tpl_hyps :
   wf_tpl ex_tpl = true /\ ok_adj ex_tpl = true /\ first_hole_named ex_tpl = true /\ has_hole ex_tpl = true /\
   print ex_tpl = #"a {{{x} }}{y:>5}{{{{{z:}{w:x}{{}}}}:end" /\
-  scan (print ex_tpl) = (#"a {{{} }}{:>5}{{{{{:}{:x}{{}}}}:end", [(#"x", []); (#"y", #":>5"); (#"z", #":"); (#"w", #":x")]).
+  (forall skip : bool,
+   scan skip (print ex_tpl) = (#"a {{{} }}{:>5}{{{{{:}{:x}{{}}}}:end", [(#"x", []); (#"y", #":>5"); (#"z", #":"); (#"w", #":x")])).
+Proof. do 5 (split; [vm_compute; reflexivity|]). intros [|]; vm_compute; reflexivity. Qed.
+
+(* a template with an escaped "}}" directly after placeholders (outside [ok_adj]): the hypotheses of the
+   theorems about the repaired scanner are satisfiable there *)
+Definition ex_tpl_adj : tpl := [EscL; Hole #"x" None; EscR; Text #" "; Hole #"y" (Some #">5"); EscR; EscR].
+Example ex_tpl_adj_hyps :
+  wf_tpl ex_tpl_adj = true /\ ok_adj ex_tpl_adj = false /\ first_hole_named ex_tpl_adj = true /\ has_hole ex_tpl_adj = true /\
+  print ex_tpl_adj = #"{{{x}}} {y:>5}}}}}" /\
+  scan false (print ex_tpl_adj) = (#"{{{}}} {:>5}}}}}", [(#"x", []); (#"y", #":>5")]) /\
+  snd (process N dec_oracle no_strings false [] (print ex_tpl_adj) [10; 20]%N)
+  = {| r_text := Some #"{10} 20}}"; r_named := Some [(#"x", #"10"); (#"y", #"20")] |}.
 Proof. repeat split; vm_compute; reflexivity. Qed.
 
 Example ex_pairs_hyps :
   length (holes ex_tpl) <= 5 /\
   renders N dec_oracle (named_specs (holes ex_tpl) 5) [10; 20; 30; 40; 50]%N [ #"10"; #"20"; #"30"; #"40"; #"50" ] /\
   Forall (fun x => has_sep x = false) [ #"10"; #"20"; #"30"; #"40"; #"50" ] /\
-  snd (process N dec_oracle no_strings [] (print ex_tpl) [10; 20; 30; 40; 50]%N)
-  = {| r_text := Some #"a {10 }20{{3040{}}:end";
-       r_named := Some [(#"x", #"10"); (#"y", #"20"); (#"z", #"30"); (#"w", #"40"); (#"_4", #"50")] |}.
+  (forall skip : bool,
+   snd (process N dec_oracle no_strings skip [] (print ex_tpl) [10; 20; 30; 40; 50]%N)
+   = {| r_text := Some #"a {10 }20{{3040{}}:end";
+        r_named := Some [(#"x", #"10"); (#"y", #"20"); (#"z", #"30"); (#"w", #"40"); (#"_4", #"50")] |}).
 Proof.
   split; [vm_compute; lia|]. split; [split; vm_compute; reflexivity|]. split.
   - repeat constructor.
-  - vm_compute. reflexivity.
+  - intros [|]; vm_compute; reflexivity.
 Qed.
 
 Example ex_json_hyps :
   hdr_ok plain_str ex_hdr = true /\ hdr_ok no_nl ex_hdr = true /\
   plain_str (no_newlines [108; 10; 123; 120; 125]%N) = true /\                      (* "l\n{x}" *)
   pairs_ok plain_str [(#"x", #"10")] = true /\ pairs_ok no_nl [(#"x", #"10")] = true /\
-  json_line ex_hdr [108; 10; 123; 120; 125]%N (Some [(#"x", #"10")])
+  forall esc : bool,
+  json_sink_line esc ex_hdr [108; 10; 123; 120; 125]%N (Some [(#"x", #"10")])
   = #"{""timestamp"":""1002"",""file_name"":""na_case.cpp"",""line"":""14"",""thread_id"":""0"",""logger"":""na"",""log_level"":""INFO"",""message"":""l {x}"",""x"":""10""}" ++ [NL].
-Proof. repeat split; vm_compute; reflexivity. Qed.
+Proof. do 5 (split; [vm_compute; reflexivity|]). intros [|]; vm_compute; reflexivity. Qed.
 
 (* the recogniser rejects what is not JSON: a raw quote or a raw newline inside a value *)
 Example ex_json_rejects :
-  json_parse_line (json_line ex_hdr #"q {x}" (Some [(#"x", #"say ""hi""")])) = None /\
-  json_parse_line (json_line ex_hdr #"nl {x}" (Some [(#"x", [97; 10; 98]%N)])) = None.
-Proof. split; vm_compute; reflexivity. Qed.
+  (forall esc : bool, json_parse_line (json_sink_line esc ex_hdr #"q {x}" (Some [(#"x", #"say ""hi""")])) = None) /\
+  json_parse_line (json_sink_line false ex_hdr #"nl {x}" (Some [(#"x", [97; 10; 98]%N)])) = None.
+Proof. split; [intros [|]|]; vm_compute; reflexivity. Qed.
 
 (* first use in either order gives the same results *)
 Example ex_cache_orders :
-  let p := process_all N dec_oracle no_strings [] in
-  let one := fun s => snd (process N dec_oracle no_strings [] (fst s) (snd s)) in
+  forall skip : bool,
+  let p := process_all N dec_oracle no_strings skip [] in
+  let one := fun s => snd (process N dec_oracle no_strings skip [] (fst s) (snd s)) in
   let s1 := (#"{a} {b}", [1; 2]%N) in let s2 := (#"{x} {y}", [3; 4]%N) in
   p [s1; s2; s1] = [one s1; one s2; one s1] /\ p [s2; s1; s1] = [one s2; one s1; one s1] /\
   r_named (one s1) = Some [(#"a", #"1"); (#"b", #"2")] /\ r_named (one s2) = Some [(#"x", #"3"); (#"y", #"4")].
-Proof. repeat split; vm_compute; reflexivity. Qed.
+Proof. intros [|]; cbv zeta; (do 3 (split; [vm_compute; reflexivity|])); vm_compute; reflexivity. Qed.
